@@ -42,5 +42,6 @@ let () =
     | "ovec" -> M_ovec.run_line
     | "obs" -> M_obs.run_line
     | "chain" -> M_chain.run_line
+    | "conc" -> M_conc.run_line
     | _ -> failwith ("unknown mode " ^ mode) in
   iter_lines stdin (fun line -> if line <> "" then f line)
